@@ -26,6 +26,7 @@ OBLIGATIONS = ["NiftyVerif.C01." + t for t in (
     "sumAbsorb_sound", "sumAbsorbDiags_sound", "sumMergeDiags_sound", "sumScalings_split", "sumProcessGroup_sound",
     "groupKeys_spec", "ssum_groups", "sumFlatten_sound", "sumSimplify_sound", "mkSumU_sound",
     "sum_no_inverse_modes", "flip_member", "flip_sound", "invEnabler_invop_sound",
+    "mkChainU_opnd", "matmul_sound", "flip_opnd", "scale_sound", "sandwichCore_sound", "mkSandwich_sound",
 )]
 RULE = ("random construction scripts (typed generator over 8 small domains, 14 leaves with independently known exact "
         "matrices, scaling/diagonal/partial-space diagonal/null/block-diagonal/sandwich/InversionEnabler, combined with "
